@@ -9,6 +9,8 @@ import (
 	"strings"
 
 	"fpcheck/core"
+
+	"golang.org/x/tools/go/cfg"
 )
 
 func init() {
@@ -16,6 +18,7 @@ func init() {
 		JSONMethods(c)
 		JSONQuote(c, "R-JSONQUOTE")
 		JSONDecDefault(c, "R-JSONDEC")
+		JSONBounds(c, "R-JSONBOUNDS")
 	})
 }
 
@@ -81,7 +84,40 @@ func JSONMethods(c *core.Ctx) {
 						}
 					}
 				}
-				// or: every dereference is preceded by an enclosing `if r != nil`
+				// or (tagless switch `case r == nil:`, merged conditions): no dereference is reachable from the entry without
+				// passing a condition that compares the receiver with nil, and some such condition leads to a non-nil error return
+				if !guarded {
+					isNilTest := func(nd ast.Node) bool {
+						return isCondNode(nd) && nodeContains(nd, false, func(x ast.Node) bool {
+							be, ok := x.(*ast.BinaryExpr)
+							return ok && (be.Op == token.EQL || be.Op == token.NEQ) &&
+								(objOf(info, be.X) == recv && isNilIdent(info, be.Y) || objOf(info, be.Y) == recv && isNilIdent(info, be.X))
+						})
+					}
+					isDeref := func(nd ast.Node) bool {
+						return nodeContains(nd, false, func(x ast.Node) bool {
+							switch s := x.(type) {
+							case *ast.StarExpr:
+								return objOf(info, s.X) == recv
+							case *ast.SelectorExpr:
+								return objOf(info, s.X) == recv
+							}
+							return false
+						})
+					}
+					cg := cfg.New(fb.Body, mayReturn(c, info))
+					errRet := nodeContains(fb.Body, false, func(x ast.Node) bool {
+						cc, ok := x.(*ast.CaseClause)
+						if !ok || len(cc.List) != 1 || !isNilTest(cc.List[0]) || len(cc.Body) == 0 {
+							return false
+						}
+						ret, ok := cc.Body[len(cc.Body)-1].(*ast.ReturnStmt)
+						return ok && len(ret.Results) == 1 && !isNilIdent(info, ret.Results[0])
+					})
+					if errRet && len(cg.Blocks) > 0 && unguardedReach(cg.Blocks[0], -1, isDeref, isNilTest) == nil {
+						guarded = true
+					}
+				}
 				if guarded {
 					c.Add("R-NILRECV", name, fb.Decl.Pos(), core.Discharged, "nil receiver rejected with an error before the first dereference")
 				} else {
@@ -316,4 +352,83 @@ func JSONMethods(c *core.Ctx) {
 	}
 	c.Floor("R-UNCHANGED", "UnmarshalJSON methods", nU, 5)
 	c.Floor("R-NULL", "MarshalJSON methods", nM, 5)
+}
+
+// JSONBounds: decoding arbitrary bytes never panics — an index or bounded slice of the input of an UnmarshalJSON method
+// is reached only after a test of the input's length.
+func JSONBounds(c *core.Ctx, rule string) {
+	c.Rule(rule, "in an UnmarshalJSON method every index / bounded slice expression on the input bytes is reached only through a condition that consults len(input): a caller may hand in an empty or nil byte string (a delegating wrapper, an absent json.RawMessage)")
+	n := 0
+	for _, fb := range funcBodies(c, c.Pkgs) {
+		if fb.Lit != nil || fb.Decl.Recv == nil || fb.Decl.Name.Name != "UnmarshalJSON" {
+			continue
+		}
+		if strings.Contains(fb.Pkg.PkgPath, "/cmd/") || strings.Contains(fb.Pkg.PkgPath, "/internal/generator") {
+			continue
+		}
+		info := fb.Pkg.TypesInfo
+		if fb.Type.Params.NumFields() != 1 || len(fb.Type.Params.List[0].Names) != 1 {
+			continue
+		}
+		in := info.Defs[fb.Type.Params.List[0].Names[0]]
+		if in == nil {
+			continue
+		}
+		if sl, ok := in.Type().Underlying().(*types.Slice); !ok || !types.Identical(sl.Elem(), types.Typ[types.Byte]) {
+			continue
+		}
+		n++
+		lenTest := func(nd ast.Node) bool {
+			return nodeContains(nd, false, func(x ast.Node) bool {
+				call, ok := x.(*ast.CallExpr)
+				return ok && isBuiltinCall(info, call, "len") && len(call.Args) == 1 && objOf(info, call.Args[0]) == in
+			})
+		}
+		// the right operand of && / || is evaluated only after the left one: `len(b) == 0 || b[0] == 'n'` tests first
+		shortCircuited := map[ast.Node]bool{}
+		ast.Inspect(fb.Body, func(x ast.Node) bool {
+			if be, ok := x.(*ast.BinaryExpr); ok && (be.Op == token.LOR || be.Op == token.LAND) && lenTest(be.X) {
+				ast.Inspect(be.Y, func(y ast.Node) bool {
+					if y != nil {
+						shortCircuited[y] = true
+					}
+					return true
+				})
+			}
+			return true
+		})
+		indexes := func(nd ast.Node) bool {
+			return nodeContains(nd, false, func(x ast.Node) bool {
+				if shortCircuited[x] {
+					return false
+				}
+				switch s := x.(type) {
+				case *ast.IndexExpr:
+					return objOf(info, s.X) == in
+				case *ast.SliceExpr:
+					return objOf(info, s.X) == in && (s.Low != nil || s.High != nil)
+				}
+				return false
+			})
+		}
+		guard := func(nd ast.Node) bool {
+			if !isCondNode(nd) {
+				return false
+			}
+			return nodeContains(nd, false, func(x ast.Node) bool {
+				call, ok := x.(*ast.CallExpr)
+				return ok && isBuiltinCall(info, call, "len") && len(call.Args) == 1 && objOf(info, call.Args[0]) == in
+			})
+		}
+		g := cfg.New(fb.Body, mayReturn(c, info))
+		if len(g.Blocks) == 0 {
+			continue
+		}
+		if hit := unguardedReach(g.Blocks[0], -1, indexes, guard); hit != nil {
+			c.Add(rule, fb.Name, hit.Pos(), core.Violated, "the input is indexed at "+c.RelPos(hit.Pos())+" on a path that never tested its length: UnmarshalJSON(nil) / UnmarshalJSON([]byte{}) panics with index out of range")
+		} else {
+			c.Add(rule, fb.Name, fb.Decl.Pos(), core.Discharged, "every index of the input follows a length test (or the input is not indexed)")
+		}
+	}
+	c.Floor(rule, "UnmarshalJSON methods", n, 2)
 }
